@@ -24,16 +24,37 @@ WOUT = re.compile(r"output::Output::output$|io::Write::write_all$")
 RPAR = re.compile(r"parse::(Parseable::parse|GetParseable::next)$")
 
 
-def wseq(f, fields):
+WITER = re.compile(r"Iterator::(try_for_each|for_each)$")
+
+
+def closure_bodies(c, f, t):
+    """bodies of the closures handed to call t of f"""
+    out = []
+    for x in t["args"]:
+        pl = op_place(x)
+        for (b2, si, it) in (f.defs().get(pl[0], []) if pl else []):
+            if si != "t" and it["rv"].get("k") == "agg" and it["rv"].get("agg") == "closure":
+                out += [Fn(b) for b in c.get_all(it["rv"]["closure"])]
+    return out
+
+
+def wseq(f, fields, c=None):
     out = []
     for bi in rpo(f):
         t = f.term(bi)
-        if t["k"] == "call" and callee_match(t, WOUT):
+        if t["k"] != "call":
+            continue
+        if callee_match(t, WOUT):
             o = f.origins(t["args"][0], deep=False)
-            names = [a[1] for a in o if a[0] == "field"] + [a[1].split("::")[-1] for a in o if a[0] == "call"]
-            hit = [n for n in names if n in fields]
-            if hit and (not out or out[-1] != hit[0]):
-                out.append(hit[0])
+        elif c is not None and callee_match(t, WITER) and any(g.calls(WOUT.pattern) for g in closure_bodies(c, f, t)):
+            # `self.items.iter().try_for_each(|x| x.output(out))`: the items of the iterated field are written here
+            o = f.origins(t["args"][0], deep=True)
+        else:
+            continue
+        names = [a[1] for a in o if a[0] == "field"] + [a[1].split("::")[-1] for a in o if a[0] == "call"]
+        hit = [n for n in names if n in fields]
+        if hit and (not out or out[-1] != hit[0]):
+            out.append(hit[0])
     return out
 
 
@@ -84,7 +105,7 @@ def run(ck):
             continue
         adt = c.adts.get(adtn)
         fields = [f["name"] for f in adt["variants"][0]["fields"]] if adt else []
-        sw = wseq(Fn(ws[wk]), fields)
+        sw = wseq(Fn(ws[wk]), fields, c)
         sr = rseq(Fn(rs[rk]), fields)
         ck.ob("SYM", adtn, "field-order", sw == sr and len(sw) >= 2, "written %s / read %s" % (sw, sr), "%s:%d" % (ws[wk]["file"], ws[wk]["line"]),
               sample=dict(rule="SYM", type=adtn, written=sw, read=sr))
@@ -107,7 +128,12 @@ def run(ck):
         if wk not in ws or rk not in rs:
             continue
         fw, fr = Fn(ws[wk]), Fn(rs[rk])
-        wt_ = sorted(((t["fline"] if "fline" in t else fw.b["blocks"][bi]["t"].get("line", 0)), norm_t(t["f"].get("self"))) for (bi, t) in fw.calls(r"output::Output::output$|Output>::output$"))
+        OUTC = r"output::Output::output$|Output>::output$"
+        wt_ = [((t["fline"] if "fline" in t else fw.b["blocks"][bi]["t"].get("line", 0)), norm_t(t["f"].get("self"))) for (bi, t) in fw.calls(OUTC)]
+        for (bi, t) in fw.calls(WITER.pattern):
+            for g in closure_bodies(c, fw, t):
+                wt_ += [(t2.get("fline", 0), norm_t(t2["f"].get("self"))) for (_, t2) in g.calls(OUTC)]
+        wt_.sort()
         rt_ = []
         for (bi, t) in fr.calls(r"GetParseable::next$|GetParseable<.*>::next$|Parseable::parse$|Parseable<.*>::parse$"):
             m = re.match(r"^std::result::Result<(.*), anyhow::Error>$", fr.locals[t["dest"][0]])
